@@ -66,7 +66,12 @@ class Container:
     def __contains__(self, item):
         if hasattr(item, "id"):
             if isinstance(item, self._itemclass):
-                return item.name in self._backend
+                # a child of the same name is this entity only if it has
+                # the same id (names repeat across parents)
+                if item.name not in self._backend:
+                    return False
+                child = self._backend.get_by_name(item.name)
+                return child.get_attr("entity_id") == item.id
             # looks like a NIX object, but wrong type
             raise TypeError(
                 "Wrong item type: {} required or the name or ID of one".format(
